@@ -396,6 +396,18 @@ func main() {
 	// Txn.Commit / commitPrecheck
 	facts = append(facts, fact{"ord_commit_steps", "op", ascending("txn.go", "Txn", "Commit",
 		"len(txn.pendingWrites) == 0", "txn.commitPrecheck()", "txn.commitAndSend()"), "txn.go:Txn.Commit [order of steps]"})
+	// safeRead.Entry (C16/C09): header through DecodeFrom on the hashing reader, then key‖value and the
+	// 4 checksum bytes through io.ReadFull (a bare Read returns a short count at a refill boundary of
+	// the bufio.Reader that logFile.iterate hands in), then the comparison; header.DecodeFrom reads
+	// two bytes and three ReadUvarint from the same reader.
+	facts = append(facts, fact{"ord_saferead_reads", "op", ascending("value.go", "safeRead", "Entry",
+		"h.DecodeFrom(tee)", "h.klen > uint32(1<<16)", "io.ReadFull(tee, buf[:])", "io.ReadFull(reader, crcBuf[:])",
+		"crc != tee.Sum32()"), "value.go:safeRead.Entry [DecodeFrom, klen check, ReadFull(kv), ReadFull(crc), compare]"})
+	facts = append(facts, fact{"has_saferead_bare_read", "op", has("value.go", "safeRead", "Entry", ".Read("), "value.go:safeRead.Entry [contains a bare .Read( call]"})
+	facts = append(facts, fact{"ord_header_decodefrom_reads", "op", ascending("structs.go", "header", "DecodeFrom",
+		"h.meta, err = reader.ReadByte()", "h.userMeta, err = reader.ReadByte()", "klen, err := binary.ReadUvarint(reader)",
+		"vlen, err := binary.ReadUvarint(reader)", "h.expiresAt, err = binary.ReadUvarint(reader)"), "structs.go:header.DecodeFrom [order and kind of reads]"})
+	facts = append(facts, fact{"has_iterate_bufio", "op", has("memtable.go", "logFile", "iterate", "bufio.NewReader(lf.NewReader(int(offset)))"), "memtable.go:logFile.iterate [reads through bufio.NewReader over the mmap reader]"})
 	// manifest rewrite rule
 	addOp("op_manifest_rewrite_threshold", "manifest.go", "manifestFile", "addChanges", "Deletions", "deletionsRewriteThreshold")
 	// directory locks (C35): Open takes the second lock iff the absolute paths differ
